@@ -243,7 +243,7 @@ theorem execute_any (hC : NoCmds sc) (x : Ctx) (t : Trans) (s : St) (src : Nat)
     obtain ⟨sdef, hs⟩ := Option.isSome_iff_exists.mp hregsrc
     have hregd := hok.2 d hd
     obtain ⟨ddef, hdd⟩ := Option.isSome_iff_exists.mp hregd
-    have hsS : cfg.state? t.source = some sdef := by rw [hsrc]; exact hs
+    have hsS : cfg.state? (s4.stateOf x.model) = some sdef := by rw [hst4]; exact hs
     -- on_exit, still in the source state
     rcases stage (β := Option Nat) sub sc hC .onExit x sdef.onExit s4 src hst4 with
       ⟨s5, g5, e5, f5, l5, a5⟩ | ⟨e, s5, g5, e5, f5, l5, a5, _⟩
